@@ -249,6 +249,12 @@ def pointwise_global_reconstruction_distortion(
         .predict(X_test)
     )
 
+    # the orthogonal regression works in the zero-padded common space
+    predictions_Y_test = np.pad(
+        predictions_Y_test,
+        [(0, 0), (0, orthogonal_predictions_Y_test.shape[1] - Y_test.shape[1])],
+    )
+
     return np.linalg.norm(predictions_Y_test - orthogonal_predictions_Y_test, axis=1)
 
 
